@@ -62,6 +62,41 @@ func (an *Analysis) isRecursive(f *ssa.Function) bool {
 	return r
 }
 
+// isRecursiveAmongNew: f can reach itself through static calls of functions that are not in the baseline - the only
+// calls that inlining view 1 expands. A new helper that recurses only through a baseline function (the baseline
+// function calls the helper, the helper calls it back) is expanded once and the call back stays a call.
+func (an *Analysis) isRecursiveAmongNew(f *ssa.Function) bool {
+	seen := map[*ssa.Function]bool{}
+	var reach func(g *ssa.Function) bool
+	reach = func(g *ssa.Function) bool {
+		for _, b := range g.Blocks {
+			for _, in := range b.Instrs {
+				if c, ok := in.(ssa.CallInstruction); ok {
+					if sc := c.Common().StaticCallee(); sc != nil {
+						if sc.Origin() != nil {
+							sc = sc.Origin()
+						}
+						if sc == f {
+							return true
+						}
+						if fi := an.P.BySSA[sc]; fi != nil && an.Baseline[fi.Name] {
+							continue
+						}
+						if !seen[sc] && len(sc.Blocks) > 0 {
+							seen[sc] = true
+							if reach(sc) {
+								return true
+							}
+						}
+					}
+				}
+			}
+		}
+		return false
+	}
+	return reach(f)
+}
+
 func NewAnalysis(P *Program) *Analysis {
 	return &Analysis{P: P, paths: map[*ssa.Function]*FuncPaths{}, effects: map[*ssa.Function]*effectSet{},
 		escMemo: map[*ssa.Alloc]bool{}, inprog: map[*ssa.Function]bool{}, Baseline: baselineFuncs()}
